@@ -628,6 +628,36 @@ theorem geom_laws_real (logN logCd dOverN dA : ℝ) (X : List (List ℝ)) (k d :
   · intro Q hQ
     exact geom_rotate_svd Q hQ logN logCd dOverN X k hw
 
+/-- **geom_laws_real_sigma0.** The four laws for the repaired code (rank decision relative to `σ_0`):
+as `geom_laws_real`, but the scaling law needs, besides the two distance guards, only that the test
+`σ_0(Y_i) > 1e-12` ("the neighbourhood is not a single point") is decided alike on both samples —
+no condition on the other singular values: rank-deficient neighbourhoods (`k < d`) and data in any
+units are covered. -/
+theorem geom_laws_real_sigma0 (logN logCd dOverN dA : ℝ) (X : List (List ℝ)) (k d : ℕ)
+    (hw : ∀ r ∈ X, r.length = d) (hd : dOverN * (X.length : ℝ) = dA) :
+    (∀ t : List ℝ, t.length = d →
+      entropyOf envSvd logN logCd dOverN (translate X t) k = entropyOf envSvd logN logCd dOverN X k)
+    ∧ ((∀ r ∈ sqKeys X, r.Nodup) → 1 ≤ k → k < X.length →
+        ∀ idx : List ℕ, idx.Perm (List.range X.length) →
+        entropyOf envSvd logN logCd dOverN (idx.map (row X)) k
+          = entropyOf envSvd logN logCd dOverN X k)
+    ∧ (∀ a : ℝ, 0 < a →
+        (∀ i < X.length, tinyR < rho envSvd X k i (knnIdx ((sqKeys X).getD i []) k)
+          ∧ tinyR < a * rho envSvd X k i (knnIdx ((sqKeys X).getD i []) k)) →
+        (∀ i < X.length,
+          (tinyR < svOf (centred envSvd X i (knnIdx ((sqKeys X).getD i []) k)) 0
+            ↔ tinyR < a * svOf (centred envSvd X i (knnIdx ((sqKeys X).getD i []) k)) 0)) →
+        entropyOf envSvd logN logCd dOverN (scale a X) k
+          = entropyOf envSvd logN logCd dOverN X k + dA * Real.log a)
+    ∧ (∀ Q : Matrix (Fin d) (Fin d) ℝ, Qᵀ * Q = 1 →
+        entropyOf envSvd logN logCd dOverN (X.map (rotOf Q)) k
+          = entropyOf envSvd logN logCd dOverN X k) := by
+  obtain ⟨h1, h2, -, h4⟩ := geom_laws_real logN logCd dOverN dA X k d hw hd
+  refine ⟨h1, h2, ?_, h4⟩
+  intro a ha hg hsv0
+  exact geom_scale_svd_sigma0 a ha logN logCd dOverN dA X k d hw hd (fun i hi => (hg i hi).1)
+    (fun i hi => (hg i hi).2) hsv0
+
 /-! ### how `corrMath` relates to the code -/
 
 /-- **Faithfulness of the ellipsoid test.** If the Gram matrix of the configuration is invertible,
